@@ -10,6 +10,7 @@ import (
 	"net/http"
 	"sync"
 	"sync/atomic"
+	"syscall"
 	"time"
 
 	"github.com/gorilla/websocket"
@@ -27,6 +28,7 @@ type frameIn struct {
 	Md     []byte
 	Body   []byte
 	Raw    []byte
+	At     time.Time
 	WsKind string // "", "ping", "pong", "close" for WebSocket control frames
 }
 
@@ -58,6 +60,8 @@ type Peer struct {
 	refuse    int32
 	onFrame   func(pc *peerConn, f frameIn)
 	onConn    func(pc *peerConn)
+	slowUpgrade func(n int) // WebSocket: called before the HTTP upgrade of dial n (may block: a slow dial)
+	holdFd    int // while refusing: a bound, non-listening socket that keeps the port (no other process can take it)
 }
 
 func newPeer(t *T, transport string, version int) *Peer {
@@ -85,6 +89,10 @@ func (p *Peer) listen(ln net.Listener) {
 		mux := http.NewServeMux()
 		mux.HandleFunc("/", func(w http.ResponseWriter, r *http.Request) {
 			n := int(atomic.AddInt32(&p.dials, 1))
+			if p.slowUpgrade != nil {
+				p.T.ev("peer.upgrade_pending", "dial", n)
+				p.slowUpgrade(n)
+			}
 			ws, err := up.Upgrade(w, r, nil)
 			if err != nil {
 				return
@@ -119,9 +127,14 @@ func (p *Peer) Refuse(on bool) {
 			p.srv.Close()
 		}
 		p.ln.Close()
+		p.holdPort()
 		return
 	}
 	atomic.StoreInt32(&p.refuse, 0)
+	if p.holdFd > 0 {
+		syscall.Close(p.holdFd)
+		p.holdFd = 0
+	}
 	for i := 0; i < 50; i++ {
 		ln, err := net.Listen("tcp", p.addr)
 		if err == nil {
@@ -131,6 +144,29 @@ func (p *Peer) Refuse(on bool) {
 		time.Sleep(10 * time.Millisecond)
 	}
 	panic("cannot listen again on " + p.addr)
+}
+
+// holdPort binds (without listening) a socket to the peer's address: connects are refused, the port stays ours
+func (p *Peer) holdPort() {
+	addr, err := net.ResolveTCPAddr("tcp", p.addr)
+	if err != nil {
+		return
+	}
+	for i := 0; i < 50; i++ {
+		fd, err := syscall.Socket(syscall.AF_INET, syscall.SOCK_STREAM, 0)
+		if err != nil {
+			return
+		}
+		syscall.SetsockoptInt(fd, syscall.SOL_SOCKET, syscall.SO_REUSEADDR, 1)
+		sa := &syscall.SockaddrInet4{Port: addr.Port}
+		copy(sa.Addr[:], addr.IP.To4())
+		if err := syscall.Bind(fd, sa); err == nil {
+			p.holdFd = fd
+			return
+		}
+		syscall.Close(fd)
+		time.Sleep(2 * time.Millisecond)
+	}
 }
 
 func (p *Peer) accept(pc *peerConn) {
@@ -157,10 +193,22 @@ func (p *Peer) FirstConn() *peerConn {
 	panic("peer: no connection was accepted")
 }
 
+// DropAll drops every accepted connection (waiting for the first one to be registered: accept may lag behind Dial)
+func (p *Peer) DropAll() {
+	p.FirstConn()
+	for _, pc := range p.Conns() {
+		pc.Drop()
+	}
+}
+
 func (p *Peer) Dials() int { return int(atomic.LoadInt32(&p.dials)) }
 func (p *Peer) Open() int  { return int(atomic.LoadInt32(&p.open)) }
 
 func (p *Peer) Shutdown() {
+	if p.holdFd > 0 {
+		syscall.Close(p.holdFd)
+		p.holdFd = 0
+	}
 	if p.srv != nil {
 		p.srv.Close()
 	}
@@ -248,6 +296,7 @@ func splitFrames(version int, buf []byte, conn int) ([]frameIn, int, bool) {
 }
 
 func (p *Peer) deliver(pc *peerConn, f frameIn) {
+	f.At = time.Now()
 	pc.mu.Lock()
 	pc.frames = append(pc.frames, f)
 	pc.mu.Unlock()
